@@ -228,7 +228,17 @@ fn hostile_int(h: &mut Hd, rng: &mut Rng, iv: &mut IntVector, steps: usize) {
             12 => h.call("IntVector::extend", "-", 0, || iv.extend(vec![v, 1, 2])),
             13 => h.call("IntVector::serialize", "-", 0, || { let mut o: Vec<u8> = Vec::new(); iv.serialize(&mut o).map(|_| o.len()) }),
             14 => { let w = *rng.pick(&[0usize, 1, 7, 63, 64, 65, usize::MAX]); let n = std::cmp::min(a, if cfg!(miri) { 60 } else { 3000 }); h.call("IntVector::with_len", cls, n, || { if let Ok(x) = IntVector::with_len(n, w, v) { *iv = x; } }) },
-            15 => h.call("RawVector::from(IntVector)", "-", 0, || { let r = RawVector::from(iv.clone()); (r.len(), r.count_ones(), r.is_mutable()) }),
+            15 => h.call("RawVector::from(IntVector)", "-", 0, || {
+                // ... and on into a bitvector whose iterators are walked from both ends (values wider than the item width
+                // were pushed above: no bit of them may survive outside the items).
+                let r = RawVector::from(iv.clone());
+                let n = r.len();
+                let bv = BitVector::from(r);
+                let mut back = bv.one_iter();
+                let mut k = 0usize;
+                while back.next_back().is_some() && k < 5000 { k += 1; }
+                (n, bv.count_ones(), k, bv.zero_iter().count(), bv.one_iter().count(), bv.iter().rev().take(130).filter(|b| *b).count())
+            }),
             _ => h.call("IntVector::misc", "-", 0, || (iv.width(), iv.max_len(), iv.capacity(), iv.is_empty(), iv.is_mutable())),
         }
     }
